@@ -3,29 +3,41 @@
 
   The specification `PyProb/Spec/Layout.lean` is written from the documentation, independently of
   the model: fixed-width little-endian integers byte by byte, the 20/16/28/8-byte footers, the bit
-  addressing rule, the hashing rule with the *published* FNV-1a constants, reference readers and
-  reference writers.  The model takes its layouts and constants from `Generated/Repo.lean`
-  (extracted from the Python source), so every theorem below ties the source to the documentation.
+  addressing rule, the hashing rule with the *published* FNV-1a constants (`Spec/Fnv.lean`),
+  reference readers that work on the file bytes only, and reference writers.  The model takes its
+  layouts and constants from `Generated/Repo.lean` (extracted from the Python source), so every
+  theorem below ties the source to the documentation: an edit of `"QQf"`, of the FNV constants, of
+  `k // 8` or of the hex byte order makes one of them false.
 
   Proved (unbounded sizes, keys and histories):
-    * footer / cell layout of every format, as a total characterisation of `export`
+    * layout of every format as a total characterisation of `export`
       (`= if <ranges> then .ok <documented file> else .error struct.error`):
-      `C06_bloom_footer`, `C06_bloom_file`, `C06_cbf_file`, `C06_cms_file` (flat and row-major),
-      `C06_expanding_file` (+ `C06_expanding_error`), `C06_cuckoo_file`, `C06_counting_cuckoo_file`;
-      `C06_bloom_hex_file` (hex text = hex of the payload, then hex of the big-endian footer);
-    * `C06_bloom_bit_addressing`, `C06_cbf_cell_addressing`, `C06_cms_cell_addressing`;
-    * reference readers agree with the library on the exported file:
-      `C06_reader_bloom`, `C06_reader_cbf`, `C06_reader_cms_min`;
-    * reference writers produce the library's file from the same additions:
-      `C06_writer_bloom`, `C06_writer_cbf`, `C06_writer_cms`.
+      `C06_bloom_footer`, `C06_bloom_file`, `C06_bloom_hex_file`, `C06_cbf_file`,
+      `C06_cms_file_flat`, `C06_cms_file` (row-major), `C06_expanding_file` / `C06_rotating_file`
+      (+ `C06_expanding_error`), `C06_cuckoo_file`, `C06_counting_cuckoo_file`
+      (+ `C06_cuckoo_overflow`);
+    * addressing: `C06_bloom_bit_addressing`, `C06_cbf_cell_addressing`, `C06_cms_cell_addressing`;
+    * reference readers agree with the library on the exported file, for every key:
+      `C06_reader_bloom` (`_iff`), `C06_reader_cbf`, `C06_reader_cms_min`, `C06_reader_cms_mean`,
+      `C06_reader_cms_meanmin` (elements_added is read from the file's footer) — error branches
+      (k = 0, depth 0, width 1) included;
+    * reference writers produce the library's file from the same additions (default hashing):
+      `C06_writer_bloom`, `C06_writer_cbf`, `C06_writer_cms`, `C06_writer_expanding`,
+      `C06_writer_rotating` (growth and rotation decisions are recomputed by the writer).
   Keys enter through `Key.units`: for a `bytes` key these are its bytes, for a `str` key the code
-  units the library's FNV loop consumes (equal to the UTF-8 bytes for ASCII text, C18_ascii).
+  units the library's FNV loop consumes (equal to the UTF-8 bytes for ASCII text, `C18_ascii`).
+  The examples at the end compare the reference writers with byte strings produced by the real
+  library.
 
-  Not proved here (see the `_full_statement` definitions at the end): reference readers for the
-  count-min *mean* and *mean-min* queries; reference writers for expanding / rotating / cuckoo
-  (their layout theorems are proved, the writers would replay growth / eviction decisions).
+  Not proved / not stated: a reference *writer* for the cuckoo filters.  Their file is pinned as a
+  function of the table by `C06_cuckoo_file` / `C06_counting_cuckoo_file` (i.e. a writer that is
+  given the eviction decisions in the form of the resulting table); which table results from a
+  history is the subject of C03 / C15.  The Bloom-family readers receive `k` and `m` as inputs
+  (the C code re-derives them from the footer with floating point, which the model keeps outside
+  as the parameter `geom`, see C05 / C07).
 -/
 import PyProb.Lemmas.Reference
+import PyProb.Lemmas.ExpandingWriter
 
 namespace PyProb.C06
 open PyProb
@@ -405,6 +417,79 @@ theorem C06_expanding_error (e : Expanding)
     · rw [expanding_go_spec _ (by intro b hb; exact Classical.not_not.mp (fun hn => hc ⟨b, hb, hn⟩)),
         expFooter_spec, if_neg h]
 
+/-- the filter obtained from `Expanding.new` by `add`ing the keys one after the other -/
+def expandingRun (est fpr32 k m : Nat) (keys : List Key) : Expanding :=
+  keys.foldl (fun e key => (e.addAlt (defaultFnv key k) false).1) (Expanding.new est fpr32 k m)
+
+/-- the queue obtained from `Rotating.new` (queue limit `q`) by `add`ing the keys -/
+def rotatingRun (est fpr32 k m q : Nat) (keys : List Key) : Rotating :=
+  keys.foldl (fun r key => (r.addAlt (defaultFnv key k) false).1) (Rotating.new est fpr32 k m q)
+
+private theorem writer_core (e : Expanding) (est fpr32 : Nat) (st : List Spec.Sub × Nat) (n : Nat)
+    (habs : absE e = st) (hinv : ∀ b ∈ e.blooms, 0 ≤ b.count) (ha : 0 ≤ e.added)
+    (hest : e.est = est) (hfpr : e.fpr32 = fpr32)
+    (hb1 : ∀ s ∈ st.1, s.1 ≤ st.2) (hb2 : st.1.length ≤ st.2 + 1) (hb3 : st.2 = n)
+    (he : est < 2 ^ 64) (hf : fpr32 < 2 ^ 32) (hn : n < 2 ^ 63) :
+    e.exportBytes = .ok (Spec.expandingFile st.1 est st.2 fpr32) := by
+  have h1 : e.blooms.map absB = st.1 := congrArg Prod.fst habs
+  have h2 : e.added.toNat = st.2 := congrArg Prod.snd habs
+  have hcounts : ∀ b ∈ e.blooms, 0 ≤ b.count ∧ b.count < 2 ^ 64 := by
+    intro b hb
+    have h0 := hinv b hb
+    have : absB b ∈ st.1 := by rw [← h1]; exact List.mem_map_of_mem hb
+    have := hb1 _ this
+    simp only [absB] at this
+    refine ⟨h0, ?_⟩
+    omega
+  have hsize : e.blooms.length < 2 ^ 64 := by
+    have : e.blooms.length = st.1.length := by rw [← h1]; simp
+    omega
+  rw [C06_expanding_file e hcounts hsize (by omega) (by omega) ha (by omega)]
+  rw [← h1, h2, hest, hfpr]
+  rfl
+
+/-- reference writer for the expanding filter: the same file from the same additions -/
+theorem C06_writer_expanding (est fpr32 k m : Nat) (keys : List Key)
+    (he : est < 2 ^ 64) (hf : fpr32 < 2 ^ 32) (hn : keys.length < 2 ^ 63) :
+    (expandingRun est fpr32 k m keys).exportBytes =
+      .ok (Spec.refWriterExpanding est fpr32 k m (keys.map Key.units)) := by
+  have hinv0 : SubsInv est fpr32 k m (Expanding.new est fpr32 k m).blooms := by
+    refine ⟨by simp [Expanding.new], ?_⟩
+    intro b hb
+    simp only [Expanding.new, List.mem_singleton] at hb
+    subst hb
+    exact ⟨SubOK_new _ _ _ _, by simp [Bloom.new]⟩
+  obtain ⟨r1, r2, r3, r4, r5⟩ := expanding_run est fpr32 k m keys (Expanding.new est fpr32 k m) rfl rfl rfl rfl hinv0
+    (by simp [Expanding.new])
+  have h0 : absE (Expanding.new est fpr32 k m) = ([Spec.freshSub m], 0) := by
+    simp [absE, Expanding.new, absB_new]
+  rw [h0] at r1
+  obtain ⟨b1, b2, b3⟩ := addStep_bound m _ (growExpanding_ok est m) k (keys.map Key.units) ([Spec.freshSub m], 0)
+    ⟨by simp [Spec.freshSub], by simp⟩
+  exact writer_core _ est fpr32 _ keys.length r1 (fun b hb => (r2.2 b hb).2) r3 r4 r5 b1 b2 (by simpa using b3)
+    he hf hn
+
+/-- reference writer for the rotating filter (queue limit `q`) -/
+theorem C06_writer_rotating (est fpr32 k m q : Nat) (keys : List Key)
+    (he : est < 2 ^ 64) (hf : fpr32 < 2 ^ 32) (hn : keys.length < 2 ^ 63) :
+    (rotatingRun est fpr32 k m q keys).toExpanding.exportBytes =
+      .ok (Spec.refWriterRotating est fpr32 k m q (keys.map Key.units)) := by
+  have hinv0 : SubsInv est fpr32 k m (Rotating.new est fpr32 k m q).blooms := by
+    refine ⟨by simp [Rotating.new, Expanding.new], ?_⟩
+    intro b hb
+    simp only [Rotating.new, Expanding.new, List.mem_singleton] at hb
+    subst hb
+    exact ⟨SubOK_new _ _ _ _, by simp [Bloom.new]⟩
+  obtain ⟨r1, r2, r3, r4, r5⟩ := rotating_run est fpr32 k m q keys (Rotating.new est fpr32 k m q) rfl rfl rfl rfl rfl
+    hinv0 (by simp [Rotating.new, Expanding.new])
+  have h0 : absR (Rotating.new est fpr32 k m q) = ([Spec.freshSub m], 0) := by
+    simp [absR, absE, Rotating.new, Expanding.new, absB_new]
+  rw [h0] at r1
+  obtain ⟨b1, b2, b3⟩ := addStep_bound m _ (growRotating_ok est q m) k (keys.map Key.units) ([Spec.freshSub m], 0)
+    ⟨by simp [Spec.freshSub], by simp⟩
+  exact writer_core _ est fpr32 _ keys.length r1 (fun b hb => (r2.2 b hb).2) r3 r4 r5 b1 b2 (by simpa using b3)
+    he hf hn
+
 /-! ## cuckoo filters -/
 
 /-- plain cuckoo filter: `capacity * bucket_size` uint32 LE fingerprints, 0 = empty slot,
@@ -515,6 +600,19 @@ example : (cbfRun 10 1028443341 3 5 [ka, kb, ka]).exportBytes =
     .ok (Spec.refWriterCbf 10 1028443341 3 5 [[97], [98, 99], [97]]) :=
   C06_writer_cbf 10 1028443341 3 5 [ka, kb, ka] (by decide) (by decide) (by decide)
 example : Spec.refReaderCbf 3 5 (Spec.refWriterCbf 10 1028443341 3 5 [[97], [98, 99], [97]]) [97] = some 2 := by decide
+
+/-- expanding / rotating: the reference writers reproduce the library's files
+    (`ExpandingBloomFilter(3, 0.05)` after a, bc, d, a, e, f — one expansion; `RotatingBloomFilter(2,
+    0.05, max_queue_size=2)` after a, bc, d, a, e, f, g — the oldest sub-filter was dropped) -/
+example : Spec.refWriterExpanding 3 1028443341 4 19 [[97], [98, 99], [100], [97], [101], [102]] =
+    [3, 0, 0, 0, 0, 0, 0, 0, 177, 61, 1, 2, 0, 0, 0, 0, 0, 0, 0, 108, 135, 0, 2, 0, 0, 0, 0, 0, 0, 0,
+     3, 0, 0, 0, 0, 0, 0, 0, 6, 0, 0, 0, 0, 0, 0, 0, 205, 204, 76, 61] := by decide
+example : Spec.refWriterRotating 2 1028443341 5 13 2 [[97], [98, 99], [100], [97], [101], [102], [103]] =
+    [2, 0, 0, 0, 0, 0, 0, 0, 71, 23, 2, 0, 0, 0, 0, 0, 0, 0, 221, 9, 2, 0, 0, 0, 0, 0, 0, 0,
+     2, 0, 0, 0, 0, 0, 0, 0, 7, 0, 0, 0, 0, 0, 0, 0, 205, 204, 76, 61] := by decide
+example : (expandingRun 3 1028443341 4 19 [ka, kb, ⟨false, [100]⟩, ka, ⟨false, [101]⟩, ⟨false, [102]⟩]).exportBytes =
+    .ok (Spec.refWriterExpanding 3 1028443341 4 19 [[97], [98, 99], [100], [97], [101], [102]]) :=
+  C06_writer_expanding 3 1028443341 4 19 _ (by decide) (by decide) (by decide)
 
 /-- layouts on hand-made states: odd bit count, negative counters, partially filled buckets -/
 example : (⟨10, 1028443341, 3, 13, [0x25, 0x11], 2⟩ : Bloom).exportBytes =
